@@ -596,6 +596,13 @@ def real_matrix(seed, count, big):
         n = max(150, min(100_000, 2_600_000_000 >> k))
         for h in ((0, 7, 1, 5)[k % 4],) if count < 500 else (0, 7, (1, 5)[k % 2]):
             cfgs.append({"history": h, "n": n, "mode": 1, "stride": 1 << k, "seed": rng.next() % (1 << 48)})
+    # composite strides m * 2^k (m small and odd): a usage where m groups of 2^k structures are
+    # filled in lock-step; sub-sampling weaknesses of a generator need not sit at pure powers of two
+    for m in ((3, 5) if count < 500 else (3, 5, 7, 9, 15)):
+        for k in ((12, 14, 16) if count < 500 else range(10, 21)):
+            stride = m << k
+            n = max(150, min(100_000, 2_600_000_000 // stride))
+            cfgs.append({"history": (0, 7, 1, 5)[(m + k) % 4], "n": n, "mode": 1, "stride": stride, "seed": rng.next() % (1 << 48)})
     for b in range(big):
         cfgs.append({"history": b % N_HISTORIES, "n": 1_000_000, "mode": [0, 1, 2][b % 3], "stride": rng.pick([2, 3, 8, 64]), "seed": rng.next() % (1 << 48)})
     return cfgs
